@@ -11,4 +11,5 @@ INVARIANT ShortCircuit
 INVARIANT CtorLaw
 INVARIANT Unorderable
 INVARIANT HistoryFree
+INVARIANT CheckContains
 CHECK_DEADLOCK FALSE
